@@ -189,6 +189,26 @@ func runC12(r *Run) {
 	c12Errors(r)
 	c12BigInts(r)
 	c12BigReals(r)
+	c12Strings(r)
+}
+
+// c12Strings: strings that need escaping on the wire (control characters, quotes, characters outside the basic
+// plane, what an HTML-safe encoder rewrites), alone in a set (written as the bare element), among others, as
+// key and value of a map, in a row, a condition, a mutation and an operation: the round-trip oracle only
+func c12Strings(r *Run) {
+	for _, s := range c09Strings {
+		one, _ := ovsdb.NewOvsSet([]string{s})
+		two, _ := ovsdb.NewOvsSet([]string{s, "a"})
+		m, _ := ovsdb.NewOvsMap(map[string]string{s: s})
+		c12Check(r, "set", one, "")
+		c12Check(r, "set", two, "")
+		c12Check(r, "map", m, "")
+		c12Check(r, "row", ovsdb.Row{"c": s, "s": one, "m": m}, "")
+		c12Check(r, "condition", ovsdb.NewCondition("c", ovsdb.ConditionEqual, one), "")
+		c12Check(r, "condition", ovsdb.NewCondition("c", ovsdb.ConditionIncludes, s), "")
+		c12Check(r, "mutation", *ovsdb.NewMutation("c", ovsdb.MutateOperationInsert, one), "")
+		c12Check(r, "operation", ovsdb.Operation{Op: "insert", Table: "T", Row: ovsdb.Row{"c": s, "s": one}, UUIDName: "n"}, "")
+	}
 }
 
 // c12NestedMaps: maps whose values are sets (of uuids or strings; empty or with two and more elements: a
